@@ -217,7 +217,10 @@ func (c *MapCodec) readMapEntry(mp, k unsafe.Pointer, data []byte) (int, error) 
 	// the value should be. We're going to unmarshal into this directly
 	val := mapassign(unpackEFace(c.rtype).data, mp, k)
 
-	if offset < len(data) {
+	if offset < len(data) || index == 2 {
+		// There is a value field. Note it may be present but empty (e.g. a
+		// pointer to an empty string), in which case it is the last thing in
+		// the entry and there is no data left
 		if index == 1 {
 			offset, fieldEnd, _, wt, err = c.readTagAndLength(data, offset)
 			if err != nil {
